@@ -303,12 +303,14 @@ def m7_proposer_paid_once(S):
         st = deref(ex, args[0])
         add = deref(ex, args[1])
         src = getattr(add, "name", "?")
-        ex._write(args[0].frame, args[0].local, list(args[0].proj), setv(tuple(st.fields) + (src,)))
+        base = tuple(st.fields) if isinstance(st, AggV) and st.ty == "SetModel" else (getattr(st, "name", "?"),)
+        ex._write(args[0].frame, args[0].local, list(args[0].proj), setv(base + (src,)))
         return UNIT
 
     def contains(ex, callee, args, dty):
         st = deref(ex, args[0])
-        ex.log.append(("contains", callee, [tuple(st.fields), len([e for e in ex.log if e[0] == "iter"])], list(ex.pc)))
+        srcs = tuple(st.fields) if isinstance(st, AggV) and st.ty == "SetModel" else (getattr(st, "name", "?"),)
+        ex.log.append(("contains", callee, [srcs, len([e for e in ex.log if e[0] == "iter"])], list(ex.pc)))
         return ex.ctx.bool(f"contains_{len(ex.log)}")
 
     def ids_by_hash(ex, callee, args, dty):
